@@ -44,7 +44,7 @@ class C15(core.Prop):
     lean_modules = ['TddaVerif.Props.C15']
     theorems = ['TddaVerif.Props.C15.' + t for t in ['pass_writes_nothing', 'raw_actual_content', 'file_actual_not_rewritten',
         'binary_offset_exact', 'diffMarker_shape', 'diffMarker_self', 'postprocessed_differ_exactly']]
-    quick_n = 500
+    quick_n = 1500
     thorough_n = 30000
     rule = ('cases: the (actual, reference, options, entry point) cases of C04 (near-miss edits x option subsets x '
             'string / file / list-of-files) plus pairs of byte strings of length 0..12 over a 3-value alphabet with '
@@ -158,6 +158,10 @@ class C15(core.Prop):
             if got_len != want_len:
                 fail('binary-lengths', 'reported %r, real %r' % (got_len, want_len))
             return F
+        # a failed string assertion leaves the actual content in a file the message names (also when the actual text is
+        # empty or every line of it was removed)
+        if case['entry'] == 'string' and not raw_cmd:
+            fail('no-raw-actual', 'the failure message of a string assertion names no file holding the actual content: %r' % msg[:300])
         # the file given as actual holds exactly the actual content
         if raw_cmd:
             apath = rel(raw_cmd[0])
